@@ -34,7 +34,7 @@ EmptyF == [x \in {} |-> 0]
 Init0 == [
   tr       |-> "none",
   cfg      |-> [refresh |-> "auto", pop |-> FALSE, q |-> 0, notifier |-> FALSE, width |-> 0, delay |-> FALSE,
-                outfault |-> 0, ctx |-> FALSE],
+                outfault |-> 0, ctx |-> FALSE, autotoo |-> FALSE],
   family   |-> "",
   bars     |-> EmptyF,   \* name -> what the client asked for and what Add returned
   created  |-> <<>>,     \* bars in creation order (the default priority)
@@ -49,6 +49,7 @@ Init0 == [
   termCnt  |-> EmptyF,   \* bar -> number of frames that showed it in a terminal state
   lateSucc |-> {},       \* bars created behind a predecessor that had already been drawn twice in its terminal state
   compSeen |-> {},       \* bars some getter reported completed
+  compShown |-> {},      \* bars some frame or getter has shown completed
   abrtSeen |-> {},       \* bars some getter reported aborted
   dropped  |-> {},       \* bars on which Abort(drop=true) has returned
   aborts   |-> EmptyF,   \* bar -> set of drop flags of the Abort calls issued while the container was live
@@ -78,7 +79,10 @@ Init0 == [
 (* What may be absent.  A bar may leave the display only once it is known  *)
 (* to be terminal and it was configured (or asked) to leave.               *)
 HasSucc(s, b) == \E x \in DOMAIN s.bars : s.bars[x].after = b /\ s.bars[x].ok
-Leaves(s, b)  == \/ s.bars[b].rm
+(* May a terminal bar leave the display?  Remove-on-complete applies unless an Abort(false) reset it; the reset
+   only happens when that Abort took effect, i.e. the bar is not known to have completed. *)
+AbortFlags(s, b) == IF b \in DOMAIN s.aborts THEN s.aborts[b] ELSE {}
+Leaves(s, b)  == \/ (s.bars[b].rm /\ (FALSE \notin AbortFlags(s, b) \/ b \in s.compShown))
                  \/ b \in s.dropped
                  \/ (s.cfg.pop /\ ~s.bars[b].nopop)
                  \/ HasSucc(s, b)
@@ -362,6 +366,7 @@ Step(s, e) ==
          [s EXCEPT !.writes[i].ret = e.seq, !.writes[i].ok = (e.err = "" /\ e.full)]
     [] e.ev = "ret" /\ e.op = "get" ->
          [s EXCEPT !.compSeen = IF e.completed THEN @ \cup {e.b} ELSE @,
+                   !.compShown = IF e.completed THEN @ \cup {e.b} ELSE @,
                    !.abrtSeen = IF e.aborted THEN @ \cup {e.b} ELSE @,
                    !.termSeen = IF e.completed \/ e.aborted THEN @ \cup {e.b} ELSE @,
                    !.final = IF s.doneAt # 0 /\ e.b \notin DOMAIN @
@@ -396,6 +401,7 @@ Step(s, e) ==
                    !.shown = @ \cup cur,
                    !.gone = @ \cup (prev \ cur),
                    !.termSeen = @ \cup {e.groups[i].b : i \in {j \in DOMAIN e.groups : Terminal(e.groups[j].fl)}},
+                   !.compShown = @ \cup {e.groups[i].b : i \in {j \in DOMAIN e.groups : e.groups[j].fl = "C"}},
                    !.texts = @ \o [i \in DOMAIN e.text |-> [line |-> e.text[i], frame |-> k]],
                    !.detachedF = {},
                    !.termCnt = LET tb == {e.groups[i].b : i \in {j \in DOMAIN e.groups : Terminal(e.groups[j].fl)}}
@@ -433,6 +439,7 @@ Check(s, e) ==
              ps  == "C01,C02" \o (IF s.fault THEN ",C15" ELSE "") \o (IF Orphans(s) # {} THEN ",C17" ELSE "")
                               \o (IF s.stopReq THEN ",C14" ELSE "")
                               \o (IF SyncBars(s) # {} /\ e.infmt THEN ",C12" ELSE "")
+                              \o (IF e.wpend THEN ",C13" ELSE "")
          IN <<B(ps, "hang" \o why, e, ToString(<<e.kind, e.pending>>))>>
     [] e.ev = "panic" ->
          <<B("C02", "panic" \o (IF s.detached # {} /\ e.closedsend THEN "/detached-push" ELSE ""), e, e.msg)>>
